@@ -1,6 +1,7 @@
 import SspModel.Lemmas.Pk
 import SspModel.Model.Kroupa
 import SspModel.Generated.Formulas
+import Mathlib.Tactic.IntervalCases
 /-!
 # C20 — the legacy Kroupa density is a normalised, continuous, non-negative PDF
 -/
@@ -189,6 +190,285 @@ theorem gen_getmass (x slope xmin xmax : ℝ) : Generated.kroupa_getmass x slope
   have e : (@OfScientific.ofScientific ℝ ScalarLit.instOfSci 10 true 1) = (1:ℝ) := by rw [real_ofSci]; try norm_num
   simp only [Generated.kroupa_getmass, kGetmass, real_one, e]
 
+/-! ## positivity: constants, normalisation, density -/
+
+/-- limits positive and strictly increasing (indices below the list length) -/
+def IncPos (mlim : List ℝ) : Prop :=
+  (∀ j, j < mlim.length → 0 < mlim.getD j 0) ∧ ∀ j, j + 1 < mlim.length → mlim.getD j 0 < mlim.getD (j + 1) 0
+
+theorem kProd_pos (a mlim : List ℝ) (h : IncPos mlim) (k : Nat) (hk : k + 1 < mlim.length) : 0 < kProd a mlim k := by
+  induction k with
+  | zero => simp [kProd, real_one]
+  | succ k ih =>
+    rw [kProd_real]
+    have h1 := h.1 (k + 2) (by omega)
+    have h2 := h.1 (k + 1) (by omega)
+    exact mul_pos (ih (by omega)) (Real.rpow_pos_of_pos (div_pos h1 h2) _)
+
+theorem kC_pos (a mlim : List ℝ) (h : IncPos mlim) (i : Nat) (hi : i + 1 < mlim.length) : 0 < kC a mlim i := by
+  cases i with
+  | zero =>
+    rw [kC_zero]
+    exact Real.rpow_pos_of_pos (one_div_pos.2 (h.1 1 (by omega))) _
+  | succ i =>
+    rw [kC_succ]
+    exact mul_pos (Real.rpow_pos_of_pos (one_div_pos.2 (h.1 (i + 1) (by omega))) _) (kProd_pos a mlim h i (by omega))
+
+theorem kSum_pos (a mlim : List ℝ) (h : IncPos mlim) (n : Nat) (hn0 : 0 < n) (hn : n < mlim.length) : 0 < kSum a mlim n := by
+  induction n with
+  | zero => omega
+  | succ n ih =>
+    rw [kSum_succ]
+    have hterm : 0 < kMom0 (mlim.getD n 0) (mlim.getD (n + 1) 0) (a.getD n 0) * kC a mlim n :=
+      mul_pos (kMom0_pos _ _ _ (h.1 n (by omega)) (h.2 n (by omega))) (kC_pos a mlim h n (by omega))
+    rcases Nat.eq_zero_or_pos n with rfl | hpos
+    · simp only [kSum, real_zero]; linarith
+    · have := ih hpos (by omega); linarith
+
+theorem kNorm_pos (a mlim : List ℝ) (h : IncPos mlim) (ha : 0 < a.length) (hlen : mlim.length = a.length + 1) : 0 < kNorm a mlim := by
+  unfold kNorm; simp only [real_one]
+  exact one_div_pos.2 (kSum_pos a mlim h a.length ha (by omega))
+
+theorem kPiece_lt (mlim : List ℝ) (x : ℝ) (n i j : Nat) (h : kPiece mlim x n i = some j) : i ≤ j ∧ j < i + n := by
+  induction n generalizing i with
+  | zero => simp [kPiece] at h
+  | succ n ih =>
+    unfold kPiece at h
+    split at h
+    · cases h; omega
+    · have := ih (i + 1) h; omega
+
+/-- **the density is positive wherever it is defined** -/
+theorem density_pos (a mlim : List ℝ) (h : IncPos mlim) (ha : 0 < a.length) (hlen : mlim.length = a.length + 1) (x y : ℝ) (hx : 0 < x)
+    (he : kEval a mlim x = some y) : 0 < y := by
+  unfold kEval at he
+  cases hp : kPiece mlim x a.length 0 with
+  | none => rw [hp] at he; cases he
+  | some i =>
+    rw [hp] at he
+    have hi := kPiece_lt mlim x a.length 0 i hp
+    cases he
+    simp only [real_rpow]
+    exact mul_pos (mul_pos (kNorm_pos a mlim h ha hlen) (kC_pos a mlim h i (by omega))) (Real.rpow_pos_of_pos hx _)
+
+/-! ## `integral()`: which pieces are visited and what each visit adds -/
+
+theorem lastIdx_spec (p : ℝ → Bool) (l : List ℝ) (i : Nat) (acc : Option Nat) :
+    ((∀ x ∈ l, p x = false) ∧ lastIdxAux p l i acc = acc) ∨
+    ∃ j, j < l.length ∧ lastIdxAux p l i acc = some (i + j) ∧ p (l.getD j 0) = true ∧
+      ∀ k, j < k → k < l.length → p (l.getD k 0) = false := by
+  induction l generalizing i acc with
+  | nil => left; simp [lastIdxAux]
+  | cons b t ih =>
+    simp only [lastIdxAux]
+    rcases ih (i + 1) (if p b = true then some i else acc) with ⟨hno, heq⟩ | ⟨j, hj, heq, hp, hlast⟩
+    · by_cases hb : p b = true
+      · right
+        refine ⟨0, by simp, ?_, by simpa using hb, ?_⟩
+        · rw [heq]; simp [hb]
+        · intro k hk hk2
+          cases k with
+          | zero => omega
+          | succ k =>
+            have hmem : t.getD k 0 ∈ t := by
+              simp only [List.length_cons] at hk2
+              rw [List.getD_eq_getElem?_getD, List.getElem?_eq_getElem (by omega)]; simp
+            simpa using hno _ hmem
+      · left
+        refine ⟨?_, ?_⟩
+        · intro x hx
+          rcases List.mem_cons.1 hx with rfl | hx
+          · simpa using hb
+          · exact hno x hx
+        · rw [heq]; simp [hb]
+    · right
+      refine ⟨j + 1, by simpa using hj, ?_, by simpa using hp, ?_⟩
+      · rw [heq]; congr 1; omega
+      · intro k hk hk2
+        cases k with
+        | zero => omega
+        | succ k => simpa using hlast k (by omega) (by simpa using hk2)
+
+theorem firstIdx_spec (p : ℝ → Bool) (l : List ℝ) (i : Nat) :
+    ((∀ x ∈ l, p x = false) ∧ firstIdxAux p l i = none) ∨
+    ∃ j, j < l.length ∧ firstIdxAux p l i = some (i + j) ∧ p (l.getD j 0) = true ∧ ∀ k, k < j → p (l.getD k 0) = false := by
+  induction l generalizing i with
+  | nil => left; simp [firstIdxAux]
+  | cons b t ih =>
+    simp only [firstIdxAux]
+    by_cases hb : p b = true
+    · right
+      exact ⟨0, by simp, by simp [hb], by simpa using hb, fun k hk => by omega⟩
+    · rcases ih (i + 1) with ⟨hno, heq⟩ | ⟨j, hj, heq, hp, hfirst⟩
+      · left
+        refine ⟨?_, by simp [hb, heq]⟩
+        intro x hx
+        rcases List.mem_cons.1 hx with rfl | hx
+        · simpa using hb
+        · exact hno x hx
+      · right
+        refine ⟨j + 1, by simpa using hj, ?_, by simpa using hp, ?_⟩
+        · simp only [hb, if_false, Bool.false_eq_true]; rw [heq]; congr 1; omega
+        · intro k hk
+          cases k with
+          | zero => simpa using hb
+          | succ k => simpa using hfirst k (by omega)
+
+theorem maxS'_real (x y : ℝ) : maxS' x y = max x y := by
+  unfold maxS'
+  by_cases h : x < y
+  · have : Scalar.lt x y = true := by rw [real_lt]; exact h
+    rw [if_pos this, max_eq_right h.le]
+  · have : ¬ (Scalar.lt x y = true) := by rw [real_lt]; exact h
+    rw [if_neg this, max_eq_left (not_lt.1 h)]
+theorem minS'_real (x y : ℝ) : minS' x y = min x y := by
+  unfold minS'
+  by_cases h : y < x
+  · have : Scalar.lt y x = true := by rw [real_lt]; exact h
+    rw [if_pos this, min_eq_right h.le]
+  · have : ¬ (Scalar.lt y x = true) := by rw [real_lt]; exact h
+    rw [if_neg this, min_eq_left (not_lt.1 h)]
+
+/-- what one visit of piece `i` adds: the two moments of `norm·C_i·x^(−a_i)` over the clipped range -/
+theorem kIntStep_exact (a mlim : List ℝ) (xmin xmax : ℝ) (acc : ℝ × ℝ) (i : Nat)
+    (hlo : 0 < max (mlim.getD i 0) xmin) (hle : max (mlim.getD i 0) xmin ≤ min (mlim.getD (i + 1) 0) xmax) :
+    kIntStep a mlim xmin xmax acc i =
+      (acc.1 + kNorm a mlim * kC a mlim i * ∫ x in (max (mlim.getD i 0) xmin)..(min (mlim.getD (i + 1) 0) xmax), x ^ (-(a.getD i 0)),
+       acc.2 + kNorm a mlim * kC a mlim i * ∫ x in (max (mlim.getD i 0) xmin)..(min (mlim.getD (i + 1) 0) xmax), x * x ^ (-(a.getD i 0))) := by
+  have hmax := maxS'_real (mlim.getD i 0) xmin
+  have hmin := minS'_real (mlim.getD (i + 1) 0) xmax
+  unfold kIntStep
+  simp only [hmax, hmin, real_zero]
+  rw [kMom0_eq_integral _ _ _ hlo hle, kMom1_eq_integral _ _ _ hlo hle]
+
+/-- the first visited piece contains `xmin`: `mlim[i0] ≤ xmin < mlim[i0+1]` -/
+theorem imin_spec (mlim : List ℝ) (h : IncPos mlim) (xmin : ℝ) (hne : 0 < mlim.length) (h0 : mlim.getD 0 0 ≤ xmin) :
+    ∃ j, j < mlim.length ∧ lastIdxAux (fun m => Scalar.le 1 (xmin / m)) mlim 0 none = some j ∧ mlim.getD j 0 ≤ xmin ∧
+      ∀ k, j < k → k < mlim.length → xmin < mlim.getD k 0 := by
+  rcases lastIdx_spec (fun m => Scalar.le 1 (xmin / m)) mlim 0 none with ⟨hno, _⟩ | ⟨j, hj, heq, hp, hlast⟩
+  · exfalso
+    have hmem : mlim.getD 0 0 ∈ mlim := by
+      rw [List.getD_eq_getElem?_getD, List.getElem?_eq_getElem hne]; simp
+    have := hno _ hmem
+    simp only [Scalar.le, real_one, decide_eq_false_iff_not, not_le] at this
+    have hp0 := h.1 0 hne
+    rw [div_lt_one hp0] at this
+    linarith
+  · refine ⟨j, hj, by simpa using heq, ?_, ?_⟩
+    · simp only [Scalar.le, real_one, decide_eq_true_eq] at hp
+      rwa [le_div_iff₀ (h.1 j hj), one_mul] at hp
+    · intro k hk hk2
+      have := hlast k hk hk2
+      simp only [Scalar.le, real_one, decide_eq_false_iff_not, not_le] at this
+      rwa [div_lt_one (h.1 k hk2)] at this
+
+/-- the loop stops before the first limit above `xmax` -/
+theorem imax_spec (mlim : List ℝ) (h : IncPos mlim) (xmax : ℝ) (hne : 0 < mlim.length)
+    (hlt : xmax < mlim.getD (mlim.length - 1) 0) :
+    ∃ j, j < mlim.length ∧ firstIdxAux (fun m => Scalar.lt (xmax / m) 1) mlim 0 = some j ∧ xmax < mlim.getD j 0 ∧
+      ∀ k, k < j → mlim.getD k 0 ≤ xmax := by
+  rcases firstIdx_spec (fun m => Scalar.lt (xmax / m) 1) mlim 0 with ⟨hno, _⟩ | ⟨j, hj, heq, hp, hfirst⟩
+  · exfalso
+    have hmem : mlim.getD (mlim.length - 1) 0 ∈ mlim := by
+      rw [List.getD_eq_getElem?_getD, List.getElem?_eq_getElem (by omega)]; simp
+    have := hno _ hmem
+    simp only [Scalar.lt, real_one, decide_eq_false_iff_not, not_lt] at this
+    have hp0 := h.1 (mlim.length - 1) (by omega)
+    rw [le_div_iff₀ hp0, one_mul] at this
+    linarith
+  · refine ⟨j, hj, by simpa using heq, ?_, ?_⟩
+    · simp only [Scalar.lt, real_one, decide_eq_true_eq] at hp
+      rwa [div_lt_one (h.1 j hj)] at hp
+    · intro k hk
+      have := hfirst k hk
+      simp only [Scalar.lt, real_one, decide_eq_false_iff_not, not_lt] at this
+      rwa [le_div_iff₀ (h.1 k (by omega)), one_mul] at this
+
+theorem inc_mono (mlim : List ℝ) (h : IncPos mlim) (j k : Nat) (hjk : j ≤ k) (hk : k < mlim.length) :
+    mlim.getD j 0 ≤ mlim.getD k 0 := by
+  induction k with
+  | zero => have : j = 0 := by omega
+            rw [this]
+  | succ k ih =>
+    rcases Nat.lt_or_ge j (k + 1) with hlt | hge
+    · exact le_trans (ih (by omega) (by omega)) (h.2 k hk).le
+    · have : j = k + 1 := by omega
+      rw [this]
+
+/-- the exact contribution of piece `i` to the two moments over `[xmin, xmax]` -/
+noncomputable def stepSpec (a mlim : List ℝ) (xmin xmax : ℝ) (acc : ℝ × ℝ) (i : Nat) : ℝ × ℝ :=
+  (acc.1 + kNorm a mlim * kC a mlim i * ∫ x in (max (mlim.getD i 0) xmin)..(min (mlim.getD (i + 1) 0) xmax), x ^ (-(a.getD i 0)),
+   acc.2 + kNorm a mlim * kC a mlim i * ∫ x in (max (mlim.getD i 0) xmin)..(min (mlim.getD (i + 1) 0) xmax), x * x ^ (-(a.getD i 0)))
+
+theorem foldl_congr_mem {β γ : Type} (f g : β → γ → β) (l : List γ) (b : β) (h : ∀ acc, ∀ x ∈ l, f acc x = g acc x) :
+    l.foldl f b = l.foldl g b := by
+  induction l generalizing b with
+  | nil => rfl
+  | cons x t ih =>
+    simp only [List.foldl_cons]
+    rw [h b x (by simp)]
+    exact ih _ (fun acc y hy => h acc y (List.mem_cons_of_mem _ hy))
+
+/-- **`integral(xmin, xmax)`** visits exactly the pieces `i0 … i1−1` that meet `[xmin, xmax]` (`i0` holds `xmin`, the clipped ranges
+    `[max(l_i,xmin), min(u_i,xmax)]` are proper, consecutive and run from `xmin` to `xmax`) and adds to each moment the exact integral of
+    `norm·C_i·x^(−a_i)` over the clipped range -/
+theorem kIntegral_spec (a mlim : List ℝ) (h : IncPos mlim) (hlen : mlim.length = a.length + 1) (xmin xmax : ℝ)
+    (h0 : mlim.getD 0 0 ≤ xmin) (hlt : xmin < xmax) (h1 : xmax ≤ mlim.getD (mlim.length - 1) 0) :
+    ∃ i0 i1, i0 < i1 ∧ i1 < mlim.length ∧
+      mlim.getD i0 0 ≤ xmin ∧ xmin < mlim.getD (i0 + 1) 0 ∧ mlim.getD (i1 - 1) 0 ≤ xmax ∧ xmax ≤ mlim.getD i1 0 ∧
+      (∀ i, i0 ≤ i → i < i1 → 0 < max (mlim.getD i 0) xmin ∧ max (mlim.getD i 0) xmin ≤ min (mlim.getD (i + 1) 0) xmax) ∧
+      kIntegral a mlim xmin xmax = .ok ((List.range' i0 (i1 - i0)).foldl (stepSpec a mlim xmin xmax) (0, 0)) := by
+  have hne : 0 < mlim.length := by omega
+  obtain ⟨j0, hj0, heq0, hle0, hgt0⟩ := imin_spec mlim h xmin hne h0
+  have hxpos : 0 < xmin := lt_of_lt_of_le (h.1 0 hne) h0
+  -- the index at which the loop stops
+  have himax : ∃ j1, j1 < mlim.length ∧
+      (if Scalar.beq xmax (mlim.getD (mlim.length - 1) 0) then some (mlim.length - 1)
+       else firstIdxAux (fun m => Scalar.lt (xmax / m) 1) mlim 0) = some j1 ∧
+      xmax ≤ mlim.getD j1 0 ∧ ∀ k, k < j1 → mlim.getD k 0 ≤ xmax := by
+    by_cases he : xmax = mlim.getD (mlim.length - 1) 0
+    · refine ⟨mlim.length - 1, by omega, ?_, he.le, ?_⟩
+      · have : Scalar.beq xmax (mlim.getD (mlim.length - 1) 0) = true := by rw [real_beq]; exact he
+        rw [if_pos this]
+      · intro k hk
+        rw [he]; exact inc_mono mlim h k _ (by omega) (by omega)
+    · have hl : xmax < mlim.getD (mlim.length - 1) 0 := lt_of_le_of_ne h1 he
+      obtain ⟨j1, hj1, heq1, hgt1, hle1⟩ := imax_spec mlim h xmax hne hl
+      refine ⟨j1, hj1, ?_, hgt1.le, hle1⟩
+      have : ¬ (Scalar.beq xmax (mlim.getD (mlim.length - 1) 0) = true) := by rw [real_beq]; exact he
+      rw [if_neg this, heq1]
+  obtain ⟨j1, hj1, heq1, hge1, hle1⟩ := himax
+  have hj01 : j0 < j1 := by
+    by_contra hcon
+    push Not at hcon
+    have := inc_mono mlim h j1 j0 hcon hj0
+    linarith
+  have hnext : xmin < mlim.getD (j0 + 1) 0 := hgt0 (j0 + 1) (by omega) (by omega)
+  have hpieces : ∀ i, j0 ≤ i → i < j1 →
+      0 < max (mlim.getD i 0) xmin ∧ max (mlim.getD i 0) xmin ≤ min (mlim.getD (i + 1) 0) xmax := by
+    intro i hi0 hi1
+    refine ⟨lt_of_lt_of_le hxpos (le_max_right _ _), ?_⟩
+    have c1 : mlim.getD i 0 ≤ mlim.getD (i + 1) 0 := (h.2 i (by omega)).le
+    have c2 : mlim.getD i 0 ≤ xmax := hle1 i hi1
+    have c3 : xmin ≤ mlim.getD (i + 1) 0 := (hgt0 (i + 1) (by omega) (by omega)).le
+    exact max_le (le_min c1 c2) (le_min c3 hlt.le)
+  refine ⟨j0, j1, hj01, hj1, hle0, hnext, hle1 (j1 - 1) (by omega), hge1, hpieces, ?_⟩
+  unfold kIntegral
+  have g1 : ¬ (Scalar.lt xmin (mlim.getD 0 0) = true) := by rw [real_lt]; exact not_lt.2 h0
+  have g2 : ¬ (Scalar.lt (mlim.getD (mlim.length - 1) 0) xmax = true) := by rw [real_lt]; exact not_lt.2 h1
+  simp only [real_zero] at g1 g2 ⊢
+  rw [if_neg g1, if_neg g2]
+  simp only [real_one] at heq0 heq1 ⊢
+  rw [heq0, heq1]
+  have hneq : (j0 == j1) = false := by simp; omega
+  simp only [hneq, Bool.false_eq_true, if_false]
+  congr 1
+  apply foldl_congr_mem
+  intro acc i hi
+  rw [List.mem_range'_1] at hi
+  have hp := hpieces i hi.1 (by omega)
+  exact kIntStep_exact a mlim xmin xmax acc i hp.1 hp.2
+
 structure Statement : Prop where
   mom0 : ∀ xmin xmax a : ℝ, 0 < xmin → xmin ≤ xmax → Generated.kroupa_mom0 xmin xmax a = ∫ x in xmin..xmax, x ^ (-a)
   mom1 : ∀ xmin xmax a : ℝ, 0 < xmin → xmin ≤ xmax → Generated.kroupa_mom1 xmin xmax a = ∫ x in xmin..xmax, x * x ^ (-a)
@@ -199,14 +479,36 @@ structure Statement : Prop where
     kSum a mlim a.length ≠ 0 → totalProb a mlim a.length = 1
   sampled : ∀ x slope xmin xmax : ℝ, 0 ≤ x → x ≤ 1 → 0 < xmin → xmin ≤ xmax →
     xmin ≤ Generated.kroupa_getmass x slope xmin xmax ∧ Generated.kroupa_getmass x slope xmin xmax ≤ xmax
+  /-- the density is positive wherever it is defined (positive, strictly increasing limits) -/
+  positive : ∀ (a mlim : List ℝ), IncPos mlim → 0 < a.length → mlim.length = a.length + 1 → ∀ x y : ℝ, 0 < x →
+    kEval a mlim x = some y → 0 < y
+  /-- `integral(xmin, xmax)` = the two moments of the density over `[xmin, xmax]`, piece by piece -/
+  integral : ∀ (a mlim : List ℝ), IncPos mlim → mlim.length = a.length + 1 → ∀ xmin xmax : ℝ,
+    mlim.getD 0 0 ≤ xmin → xmin < xmax → xmax ≤ mlim.getD (mlim.length - 1) 0 →
+    ∃ i0 i1, i0 < i1 ∧ i1 < mlim.length ∧
+      mlim.getD i0 0 ≤ xmin ∧ xmin < mlim.getD (i0 + 1) 0 ∧ mlim.getD (i1 - 1) 0 ≤ xmax ∧ xmax ≤ mlim.getD i1 0 ∧
+      (∀ i, i0 ≤ i → i < i1 → 0 < max (mlim.getD i 0) xmin ∧ max (mlim.getD i 0) xmin ≤ min (mlim.getD (i + 1) 0) xmax) ∧
+      kIntegral a mlim xmin xmax = .ok ((List.range' i0 (i1 - i0)).foldl (stepSpec a mlim xmin xmax) (0, 0))
 
-/-- **C20 (partial)**: not proved in Lean: the piece-selection loop of `integral()` for sub-ranges spanning several pieces
-    (checked by correspondence and the sweep) and non-negativity of the normalisation for every limit list. -/
+/-- **C20** over exact reals. (The earlier version left the piece-selection loop of `integral()` and the positivity of the normalisation to
+    the correspondence; both are proved now. What stays outside Lean: numpy's float evaluation and `np.random` in `sample`.) -/
 theorem C20_partial : Statement where
   mom0 := fun xmin xmax a h1 h2 => by rw [gen_mom0]; exact kMom0_eq_integral xmin xmax a h1 h2
   mom1 := fun xmin xmax a h1 h2 => by rw [gen_mom1]; exact kMom1_eq_integral xmin xmax a h1 h2
   continuous := fun a mlim i h1 h0 => continuity a mlim i h1 h0 (Or.inr h0)
   normalised := integrates_to_one
   sampled := fun x slope xmin xmax h0 h1 h2 h3 => by rw [gen_getmass]; exact kGetmass_in_range x slope xmin xmax h0 h1 h2 h3
+  positive := density_pos
+  integral := kIntegral_spec
+
+/-- the hypotheses are satisfiable: the default Kroupa limits are positive and strictly increasing -/
+example : IncPos [(0.08 : ℝ), 0.5, 120] := by
+  constructor
+  · intro j hj
+    have hj' : j < 3 := by simpa using hj
+    interval_cases j <;> simp <;> norm_num
+  · intro j hj
+    have hj' : j < 2 := by simp at hj; omega
+    interval_cases j <;> simp <;> norm_num
 
 end Model.C20
